@@ -153,6 +153,37 @@ def s_from_nested(tab, Q=Query):
     return Q.from_(mid).select(mid.a)
 
 
+def s_from_multi(tab, Q=Query):
+    """the same table several times in one statement: twice in the FROM list, inside a FROM subquery, joined to itself"""
+    t = tab
+    sub = Q.from_(t("all")).select(fld(t("all"), "a")).where(fld(t("all"), "w") > fld(t("sub_other"), "w"))
+    return (Q.from_(t("first")).from_(t("all")).from_(sub).from_(t("all")).from_(t("last"))
+            .select(fld(t("all"), "b"), fld(t("first"), "f"), fld(t("last"), "l")).where(fld(t("all"), "z") == 1))
+
+
+def s_from_first_multi(tab, Q=Query):
+    t = tab
+    sub = Q.from_(t("all")).select(fld(t("all"), "a"))
+    return Q.from_(t("all")).from_(sub).from_(t("all")).select(fld(t("all"), "b")).groupby(fld(t("all"), "b")).orderby(fld(t("all"), "b"))
+
+
+def s_on_subquery(tab, Q=Query):
+    """subqueries inside criteria and values of every clause"""
+    t = tab
+    on_sub = Q.from_(t("on_sub_from")).select(fld(t("on_sub_sel"), "i"))
+    hav_sub = Q.from_(t("having_sub_from")).select(FN.Max(fld(t("having_sub_sel"), "m")))
+    case_sub = Q.from_(t("case_sub_from")).select(fld(t("case_sub_sel"), "c")).limit(1)
+    return (Q.from_(t("from")).join(t("join")).on((fld(t("from"), "id") == fld(t("join"), "id")) & fld(t("join"), "id").notin(on_sub))
+            .select(fld(t("select"), "a"), Case().when(fld(t("case_when"), "k") == 1, case_sub).else_(0))
+            .groupby(fld(t("group"), "g")).having(FN.Sum(fld(t("having"), "h")) > hav_sub))
+
+
+def s_update_set_subquery(tab, Q=Query):
+    t = tab
+    val = Q.from_(t("set_sub_from")).select(FN.Max(fld(t("set_sub_sel"), "m"))).where(fld(t("set_sub_where"), "w") == fld(t("corr"), "id"))
+    return Q.update(t("update")).set(fld(t("set_lhs"), "a"), val).where(fld(t("where"), "w").isin(Q.from_(t("where_sub_from")).select("x")))
+
+
 def s_pg_returning_star(tab, Q=PostgreSQLQuery):
     t = tab
     return (Q.update(t("update")).set(fld(t("set_lhs"), "a"), 1).returning("*")
@@ -170,7 +201,7 @@ def s_delete_using(tab, Q=Query):
     return Q.from_(t("from")).delete().where(fld(t("where"), "w").isin(Q.from_(t("in_from")).select(fld(t("in_sel"), "i")).where(fld(t("in_where"), "q") == fld(t("corr"), "q"))))
 
 
-STMTS = {f.__name__[2:]: f for f in (s_twins, s_nested, s_from_nested, s_pg_returning_star, s_pg_insert_returning, s_delete_using, s_select, s_select2, s_cross, s_cte, s_insert, s_insert_select, s_update, s_update_from, s_update_join,
+STMTS = {f.__name__[2:]: f for f in (s_from_multi, s_from_first_multi, s_on_subquery, s_update_set_subquery, s_twins, s_nested, s_from_nested, s_pg_returning_star, s_pg_insert_returning, s_delete_using, s_select, s_select2, s_cross, s_cte, s_insert, s_insert_select, s_update, s_update_from, s_update_join,
                                       s_delete, s_pg_returning, s_pg_distinct_on, s_setop)}
 
 
@@ -187,6 +218,28 @@ def slots_of(fn):
 
 
 SLOTS = {k: slots_of(f) for k, f in STMTS.items()}
+
+
+def _table_positions():
+    """(statement, slot) pairs where the slot's table is a row source / target of the statement (not just the qualifier of
+    columns): None cannot stand there"""
+    from mc.lexer import lex
+
+    out = set()
+    for k, fn in STMTS.items():
+        for slot in SLOTS[k]:
+            try:
+                sql = fn(lambda s_: Table("zz_probe") if s_ == slot else other()).get_sql(fp.CTX["generic"].copy(with_namespace=True))
+                toks = lex(sql, "sqlite")
+            except Exception:
+                out.add((k, slot))
+                continue
+            if any(t.kind == "ID" and t.value == "zz_probe" and not (i + 1 < len(toks) and toks[i + 1].text == ".") for i, t in enumerate(toks)):
+                out.add((k, slot))
+    return out
+
+
+TABLE_POS = _table_positions()
 
 # depth-2 compositions: an outer term holding a zoo term in one slot
 OUTER = {
@@ -237,8 +290,8 @@ def expand(chunk):
     else:
         for slot in SLOTS[chunk["name"]]:
             for pair in PAIRS:
-                if "none" in pair:
-                    continue  # None pairs are exercised on terms (a statement cannot select from None)
+                if "none" in pair and (chunk["name"], slot) in TABLE_POS:
+                    continue  # None cannot be a row source / target; slots that only qualify columns can hold it
                 yield {"kind": "stmt", "name": chunk["name"], "slot": slot, "pair": pair}
 
 
@@ -247,6 +300,9 @@ def renders(o):
     for d, ctx in fp.CTX.items():
         out.append((d, fp.render(o, ctx.copy(with_namespace=True))))
         out.append((d + ":a", fp.render(o, ctx.copy(with_namespace=True, with_alias=True))))
+        if d in ("generic", "postgresql"):
+            ps, pv = fp.render_param(o, ctx.copy(with_namespace=True))
+            out.append((d + ":p", ps, fp.vrepr(pv)))
     if hasattr(o, "get_parameterized_sql") and callable(getattr(type(o), "get_sql", None)):
         try:
             out.append(("str", str(o)))
@@ -307,7 +363,21 @@ def run_case(case):
     r_got, r_want = renders(got), renders(want)
     res.outcomes.append(h64(repr(r_got)))
     res.states.append(h64(repr((case["name"], case.get("slot"), case["pair"]))))
-    if r_got != r_want:
+    if case["kind"] == "stmt" and "none" in case["pair"]:
+        # other table-less items of the statement ('*', USING columns) are references to None as well, so "the same
+        # construction with new in that slot" is not what replace_table(None, new) must give; what it must keep is the statement
+        # itself: same kind, same clauses
+        import re as _re
+
+        r_recv = renders(recv)
+        for (d1, a1), (d2, a2) in zip(r_recv, r_got):
+            k1 = _re.findall(r"\b(SELECT|INSERT|UPDATE|DELETE|WITH|FROM|WHERE|JOIN|SET|VALUES|GROUP|HAVING|ORDER|RETURNING|ON)\b", a1)
+            k2 = _re.findall(r"\b(SELECT|INSERT|UPDATE|DELETE|WITH|FROM|WHERE|JOIN|SET|VALUES|GROUP|HAVING|ORDER|RETURNING|ON)\b", a2)
+            if k1 != k2:
+                res.violate("C16|%s|none-changes-statement" % case["name"], "replace_table with None changed the kind / clause structure of the statement",
+                            case=case, receiver=a1, got=a2)
+                break
+    elif r_got != r_want:
         # still references old?
         d0 = next((a, b2) for a, b2 in zip(r_got, r_want) if a != b2)
         res.violate("C16|%s|not-replaced" % sigsite if case["pair"] != "none->table" else "C16|%s|none-not-replaced" % sigsite,
